@@ -197,9 +197,12 @@ def add_for_loop_no_yield_nodes(bytecode: Bytecode) -> Bytecode:  # noqa: D103
 
 def get_branch_type(opcode: int) -> bool | None:  # noqa: D103
     match opname[opcode]:
-        case "POP_JUMP_IF_TRUE" | "POP_JUMP_IF_NOT_NONE":
+        case "POP_JUMP_IF_TRUE" | "POP_JUMP_IF_NOT_NONE" | "POP_JUMP_IF_NONE":
+            # These jump to arg if the reported predicate holds: ToS is True, or the
+            # `is not None` / `is None` comparison that the branch instrumentation
+            # reports for the None-based jumps (see NONE_BASED_JUMPS_MAPPING).
             return True
-        case "POP_JUMP_IF_FALSE" | "POP_JUMP_IF_NONE" | "FOR_ITER":
+        case "POP_JUMP_IF_FALSE" | "FOR_ITER":
             return False
         case _:
             return None
